@@ -81,15 +81,16 @@ type failRec struct {
 
 // Res is what the child reports for one scenario.
 type Res struct {
-	K        int            `json:"k"`
-	Panic    bool           `json:"panic"`
-	PanicMsg string         `json:"panic_msg,omitempty"`
-	Returned bool           `json:"returned"`
-	Final    []int64        `json:"final"`
-	Fails    []failRec      `json:"fails"`
-	Obs      []string       `json:"obs,omitempty"`
-	Extra    map[string]int `json:"extra,omitempty"`
-	Ms       int64          `json:"ms"`
+	K         int            `json:"k"`
+	Panic     bool           `json:"panic"`
+	PanicMsg  string         `json:"panic_msg,omitempty"`
+	Returned  bool           `json:"returned"`
+	Final     []int64        `json:"final"`
+	Fails     []failRec      `json:"fails"`
+	Obs       []string       `json:"obs,omitempty"`
+	Extra     map[string]int `json:"extra,omitempty"`
+	AllClosed bool           `json:"all_closed,omitempty"` // stress: every session closed, released and unlisted
+	Ms        int64          `json:"ms"`
 }
 
 func b2i(b bool) int64 {
@@ -561,6 +562,7 @@ func runStress(k int, sc Scn, r *vh.Rand) (res Res) {
 		}
 	}
 	res.Extra["pairs"] = sc.Pairs
+	res.AllClosed = notClosed == 0 && stillListed == 0
 	res.Extra["close-of-closed-channel"] = dbl
 	res.Extra["send-on-closed-channel"] = snd
 	if sndStack != "" {
@@ -934,6 +936,11 @@ func main() {
 			term := fmt.Sprintf("CRun %s %s %s true %s %s %s %s %s", coqBool(sc.Cpk), coqBool(sc.Spk), coqBool(sc.Chm), coqBool(sc.Cbk),
 				phasesCoq(sc.Phases), coqBool(res.Panic), coqBool(res.Returned), vh.ZList64(res.Final))
 			out.Add(term, classOf(sc), nontrivial, desc)
+		} else if sc.Kind == "stress" && res.Returned {
+			// the model runs one racing group (the calls of the variant) under the round-robin schedule
+			calls := map[string][]int64{"pair": {7, 7}, "quad": {7, 7, 7, 7}, "close-vs-shutdown": {7, 4}}[sc.Variant]
+			desc["all_closed"] = res.AllClosed
+			out.Add(fmt.Sprintf("CStress %s %s %s", vh.ZList64(calls), coqBool(res.Panic), coqBool(res.AllClosed)), classOf(sc), nontrivial, desc)
 		} else {
 			out.Count(classOf(sc), fmt.Sprintf("%v|%v|%v", sc, res.Final, res.Returned), nontrivial)
 		}
